@@ -20,7 +20,15 @@ def pregen(ctx):
 
 
 def gen_grid(rng, n):
-    kind = rng.choice(["uniform", "uniform", "jitter1", "jitterN", "gap", "random", "small_jitter"])
+    kind = rng.choice(["uniform", "uniform", "jitter1", "jitterN", "gap", "random", "small_jitter", "int", "int"])
+    if kind == "int":
+        # whole seconds, handed to integrate() as an INTEGER array (epoch seconds are integers): the result
+        # takes its type from the signal, never from the time axis
+        h = rng.choice([1, 1, 2, 5])
+        t = [rng.randint(-1000, 1000)]
+        for i in range(1, n):
+            t.append(t[-1] + (h if rng.random() < 0.9 else h * rng.choice([2, 3])))
+        return kind, [float(v) for v in t]
     h = C.dyadic(rng, 0.05, 2.0, 8)
     t = [0.0]
     for i in range(1, n):
@@ -82,7 +90,8 @@ def run(ctx):
         start = rng.choice([0.0, 0.0, C.dyadic(rng, -10, 10, 8)])
         sig.append((gk, sk, t, x, order, n, start))
         cases.append({"op": "integrate", "order": order, "n": n, "start": C.fx(start),
-                      "t": [C.fx(v) for v in t], "x": [C.fx(v) for v in x]})
+                      "t": [C.fx(v) for v in t], "x": [C.fx(v) for v in x],
+                      "tdtype": rng.choice(["int64", "int64", "int32", "float"]) if gk == "int" else "float"})
         mlines.append("integrate %d %d %s %s %s" % (order, n, C.fx(start), C.flist(t), C.flist(x)))
         mlines.append("choices %d %d %s" % (order, n, C.flist(t)))
     impl = ctx.impl("C20.py", {"cases": cases})["results"]
